@@ -330,3 +330,71 @@ def defaults_are_resolved_at_run_time_only(ctx):
     t_ = ctx.func(AS + '.Terminated')
     ctx.need(calls_where(t_.node, lambda c: isinstance(c.func, ast.Attribute) and c.func.attr == '_SetEvaluationLimits', include_lambda=False),
              'positive control failed: Terminated no longer resolves the limits')
+
+
+def _cross_reads(fnode, name, sn):
+    """settings owned by OTHER configuration methods that this method body reads: [(attribute, owners, node)]"""
+    owner = {}
+    for k, v in WRITE_TABLE.items():
+        for a in v:
+            owner.setdefault(a, set()).add(k)
+    out = []
+    for n in walk_no_nested(fnode):
+        if isinstance(n, ast.Attribute) and isinstance(n.ctx, ast.Load) and isinstance(n.value, ast.Name) and n.value.id == sn:
+            if n.attr in owner and name not in owner[n.attr]:
+                out.append((n.attr, sorted(owner[n.attr]), n))
+    return out
+
+
+@rule('C07.h', min_instances=20)
+def config_methods_do_not_read_each_others_settings(ctx):
+    """no configuration method, and no initial-point setter, reads a setting that another configuration method owns (write table of C07.b): what it records or draws would then depend on whether that other Set* call came before or after it"""
+    # the detector must see the construct it looks for (positive control on a synthetic method)
+    probe = ast.parse('def SetRandomInitialPoints(self, min=None):\n    if min is None: min = self._strictMin if len(self._strictMin) else self._defaultMin\n').body[0]
+    ctx.need(len(_cross_reads(probe, 'SetRandomInitialPoints', 'self')) == 2, 'cross-read detector lost its positive control')
+    for name in CONFIG_METHODS + POSITIVE_CONTROLS:
+        for k, f in _impls(ctx, name):
+            ctx.touch(f)
+            sn = selfname_of(f)
+            found = _cross_reads(f.node, name, sn)
+            construct = '%s.%s#reads' % (k.name, name)
+            if found:
+                a, owners, node = found[0]
+                ctx.bad(construct, '%s.%s reads self.%s, a setting recorded by %s: its effect depends on whether %s was called before or after it'
+                        % (k.name, name, a, '/'.join(owners), '/'.join(owners)), f, enclosing_stmt(node))
+            else:
+                ctx.ok(construct, 'reads no setting owned by another configuration method', f, f.node)
+
+
+@rule('C07.i', min_instances=1)
+def in_process_and_process_maps_see_the_same_thing(ctx):
+    """a process-based map always evaluates a pickled copy of each work item, so the in-process path must not hand the solver's own vector to user code either: on the way to the raw cost one of the always-present wrappers (wrap_penalty / wrap_function) copies it (otherwise a cost that normalises its argument in place changes the solver's population under the serial map only; shared with C01.b)"""
+    from .c01 import raw_cost_receives_a_copy
+    raw_cost_receives_a_copy(ctx)
+
+
+@rule('C07.j', min_instances=2)
+def step_wise_and_run_to_completion_prepare_members_alike(ctx):
+    """the two functions the ensemble maps over its members - _step (step-wise mode) and _solve (run to completion) - are siblings: what they do to a member before it runs (initial points, re-imposed strict ranges with the same tight / clip arguments, the _live hack) and what they harvest afterwards (copies of the two monitors) are the same behaviour, path for path; they differ only in the run call itself"""
+    from .. import siblings as SB
+    E = 'mystic.abstract_ensemble_solver:AbstractEnsembleSolver'
+    parts = {}
+    for meth, inner, run in (('_Step', '_step', 'Step'), ('_Solve', '_solve', 'Solve')):
+        g = ctx.func('%s.%s.%s' % (E, meth, inner))
+        sp = g.args()[0]
+        idx = [i for i, st in enumerate(g.node.body) if isinstance(st, ast.Expr) and isinstance(st.value, ast.Call) and isinstance(st.value.func, ast.Attribute)
+               and st.value.func.attr == run and isinstance(st.value.func.value, ast.Name) and st.value.func.value.id == sp]
+        ctx.need(len(idx) == 1, '%s: expected exactly one top-level %s.%s(...) statement' % (inner, sp, run))
+        i = idx[0]
+        pre = g.node.body[:i]
+        # run-to-completion hands the objective over first when the member has none (C09.g): part of the run call, not of the preparation
+        if pre and isinstance(pre[-1], ast.If) and 'SetObjective' in unparse(pre[-1]) and '_cost' in unparse(pre[-1].test):
+            pre = pre[:-1]
+        post = g.node.body[i + 1:]
+        parts[inner] = (g, SB.summary(SB.block(pre), name_map={sp: 'solver'}), SB.summary(SB.block(post), name_map={sp: 'solver'}))
+    (g1, pre1, post1), (g2, pre2, post2) = parts['_step'], parts['_solve']
+    ctx.stats['terms_compared'] += len(pre1) + len(post1)
+    ctx.check(pre1 == pre2, 'AbstractEnsembleSolver._step/_solve#prepare', '%d path summaries of the preparation agree' % len(pre1),
+              'step-wise and run-to-completion mode prepare a member differently: %s' % SB.diff(pre1, pre2), g1, g1.node)
+    ctx.check(post1 == post2, 'AbstractEnsembleSolver._step/_solve#harvest', '%d path summaries of the harvest agree' % len(post1),
+              'step-wise and run-to-completion mode harvest a member differently: %s' % SB.diff(post1, post2), g1, g1.node)
